@@ -101,57 +101,71 @@ Proof.
   rewrite energy_add_offset. rewrite penalty_expand. ring.
 Qed.
 
-(* ---------- python fallback, distinct labels ---------- *)
+(* ---------- python fallback (positions, repeated labels allowed) ---------- *)
 
-Lemma energy_py_row_tail vt lam c t r : forall p s,
-  respects (cvt vt) s -> ~ In (fst t) (map fst r) ->
-  energy (py_row vt lam c t r p) s
-  = energy p s + lam * (two * (snd t * s (fst t)) * lin_energy r s).
+Lemma energy_py_pair_step vt lam t u p s :
+  bqm_vt vt -> respects (cvt vt) s ->
+  energy (py_pair_step vt lam t u p) s
+  = energy p s + two * lam * snd t * snd u * (s (fst t) * s (fst u)).
 Proof.
-  unfold py_row. induction r as [|u r IH]; intros p s Hr Hni; cbn [fold_left].
-  - rewrite lin_energy_nil. ring.
-  - cbn [map In] in Hni.
-    rewrite IH by tauto.
-    unfold py_pair_step. destruct (Nat.eqb_spec (fst t) (fst u)) as [E|E].
-    + exfalso. apply Hni. left. symmetry. exact E.
-    + rewrite energy_add_quadratic by assumption. rewrite lin_energy_cons. ring.
+  intros Hvt Hr. unfold py_pair_step. destruct (Nat.eqb_spec (fst t) (fst u)) as [E|E].
+  - rewrite <- E. pose proof (Hr (fst t)) as Hv. unfold cvt in Hv.
+    destruct Hvt as [-> | ->].
+    + rewrite energy_add_linear. rewrite Hv. ring.
+    + rewrite energy_add_offset. rewrite Hv. ring.
+  - rewrite energy_add_quadratic by assumption. ring.
 Qed.
 
-Lemma energy_py_row vt lam c t r p s :
-  bqm_vt vt -> respects (cvt vt) s -> ~ In (fst t) (map fst r) ->
-  energy (py_row vt lam c t (t :: r) p) s
-  = energy p s
-    + (lam * two * c * (snd t * s (fst t)) + lam * (snd t * snd t * (s (fst t) * s (fst t))))
-    + lam * (two * (snd t * s (fst t)) * lin_energy r s).
+Lemma energy_py_diag vt lam c t p s :
+  bqm_vt vt -> respects (cvt vt) s ->
+  energy (py_diag vt lam c t p) s
+  = energy p s + (lam * two * c * (snd t * s (fst t)) + lam * (snd t * snd t * (s (fst t) * s (fst t)))).
 Proof.
-  intros Hvt Hr Hni.
-  change (py_row vt lam c t (t :: r) p) with (py_row vt lam c t r (py_pair_step vt lam c t t p)).
-  rewrite energy_py_row_tail by assumption.
-  unfold py_pair_step. rewrite Nat.eqb_refl.
-  pose proof (Hr (fst t)) as Hv. unfold cvt in Hv.
-  destruct Hvt as [-> | ->].
+  intros Hvt Hr. pose proof (Hr (fst t)) as Hv. unfold cvt in Hv.
+  destruct Hvt as [-> | ->]; unfold py_diag.
   - rewrite energy_add_linear. rewrite Hv. ring.
   - rewrite energy_add_offset, energy_add_linear. rewrite Hv. ring.
 Qed.
 
+Lemma energy_py_fold vt lam t r : forall p s,
+  bqm_vt vt -> respects (cvt vt) s ->
+  energy (fold_left (fun acc u => py_pair_step vt lam t u acc) r p) s
+  = energy p s + lam * (two * (snd t * s (fst t)) * lin_energy r s).
+Proof.
+  induction r as [|u r IH]; intros p s Hvt Hr; cbn [fold_left].
+  - rewrite lin_energy_nil. ring.
+  - rewrite IH by assumption. rewrite energy_py_pair_step by assumption.
+    rewrite lin_energy_cons. ring.
+Qed.
+
+Lemma energy_py_row vt lam c t r p s :
+  bqm_vt vt -> respects (cvt vt) s ->
+  energy (py_row vt lam c t r p) s
+  = energy p s
+    + (lam * two * c * (snd t * s (fst t)) + lam * (snd t * snd t * (s (fst t) * s (fst t))))
+    + lam * (two * (snd t * s (fst t)) * lin_energy r s).
+Proof.
+  intros Hvt Hr. unfold py_row. rewrite energy_py_fold by assumption.
+  rewrite energy_py_diag by assumption. ring.
+Qed.
+
 Lemma energy_py_pairs vt lam c terms : forall p s,
-  bqm_vt vt -> respects (cvt vt) s -> NoDup (map fst terms) ->
+  bqm_vt vt -> respects (cvt vt) s ->
   energy (py_pairs vt lam c terms p) s
   = energy p s + (lam * two * c * lin_energy terms s + lam * sqsum terms s) + lam * offdiag terms s.
 Proof.
-  induction terms as [|t r IH]; intros p s Hvt Hr Hnd; cbn [py_pairs].
+  induction terms as [|t r IH]; intros p s Hvt Hr; cbn [py_pairs].
   - rewrite lin_energy_nil. cbn [sqsum offdiag]. ring.
-  - cbn [map] in Hnd. inversion Hnd as [|k ks Hni Hnd' Heq]; subst.
-    rewrite IH by assumption. rewrite energy_py_row by assumption.
+  - rewrite IH by assumption. rewrite energy_py_row by assumption.
     rewrite lin_energy_cons. cbn [sqsum offdiag]. ring.
 Qed.
 
 Theorem add_eq_py_exact vt terms lam c p s :
-  bqm_vt vt -> respects (cvt vt) s -> NoDup (map fst terms) ->
+  bqm_vt vt -> respects (cvt vt) s ->
   energy (add_eq_py vt terms lam c p) s
   = energy p s + lam * ((lin_sum terms s + c) * (lin_sum terms s + c)).
 Proof.
-  intros Hvt Hr Hnd. unfold add_eq_py, lin_sum.
+  intros Hvt Hr. unfold add_eq_py, lin_sum.
   rewrite energy_add_offset, energy_py_pairs by assumption.
   rewrite penalty_expand. ring.
 Qed.
@@ -267,22 +281,4 @@ Proof.
   rewrite energy_dqm_terms by (try assumption; apply merge_sorted).
   rewrite energy_add_offset. rewrite <- (lin_energy_merge terms s).
   rewrite penalty_expand. ring.
-Qed.
-
-(* ---------- the fallback is wrong when a label repeats ---------- *)
-
-Definition py_bad_terms : list lterm := [(0%nat, two); (1%nat, qc 3 1); (0%nat, 1)].
-Definition py_bad_sample : sample := sample_of_list [(0%nat, 1); (1%nat, 0)].
-
-Lemma add_eq_py_repeated_refuted :
-  exists vt terms lam c p s,
-    bqm_vt vt /\ respects (cvt vt) s /\
-    energy (add_eq_py vt terms lam c p) s
-    <> energy p s + lam * ((lin_sum terms s + c) * (lin_sum terms s + c)).
-Proof.
-  exists BINARY, py_bad_terms, 1, (- (1)), pzero, py_bad_sample.
-  split; [left; reflexivity|]. split.
-  - intros v. unfold cvt, py_bad_sample, sample_of_list.
-    destruct v as [|[|v]]; cbn [find fst snd Nat.eqb]; ring.
-  - intro H. apply (f_equal this) in H. vm_compute in H. discriminate H.
 Qed.
